@@ -1005,3 +1005,53 @@ Section Search.
       split; [exact Bx|]. split; [exact By|exact Be].
   Qed.
 End Search.
+
+(* ---------- on position_at itself ---------- *)
+
+(* a finite progress in [0, 1]: the distance position_at works with is finite and in [0, dist] *)
+Lemma progress_to_dist_range (lens : list F64) (p : F64) :
+  let L := Curve.dist lens in
+  fin p -> 0 <= B2R p <= 1 -> fin L -> 0 <= B2R L -> B2R L <= pw 1023 ->
+  fin (progress_to_dist lens p) /\ 0 <= B2R (progress_to_dist lens p) <= B2R L.
+Proof.
+  intros L Fp Hp FL HL0 HL.
+  destruct (in_unit_not_clamped _ Fp Hp) as (C0 & C1).
+  rewrite (progress_to_dist_inside lens _ C0 C1). fold L.
+  assert (MpL : Rabs (B2R p * B2R L) <= pw 1023).
+  { rewrite Rabs_pos_eq by (apply Rmult_le_pos; lra). apply Rle_trans with (1 * B2R L); [|lra].
+    apply Rmult_le_compat_r; lra. }
+  destruct (D_mul_spec p L 1023 Fp FL ltac:(zl) MpL) as (Fd & _ & _).
+  split; [exact Fd|].
+  pose proof (Bmult_correct 53 1024 Hp64 He64 mode_NE p L) as C.
+  rewrite (no_overflow 53 1024 Hp64 _ 1023 ltac:(zl) MpL) in C. destruct C as (CRm & _).
+  change (Bmult mode_NE p L) with (D.mul p L) in CRm.
+  rewrite CRm. split; [rewrite <- RN64_0; apply RN64_le; apply Rmult_le_pos; lra|].
+  rewrite <- (RN64_B2R L) at 2. apply RN64_le. apply Rle_trans with (1 * B2R L); [|lra].
+  apply Rmult_le_compat_r; lra.
+Qed.
+
+(* the GLOBAL Lipschitz bound of position_at on a curve with its natural
+   lengths, in the progress: finite progresses pa, pb in [0, 1], distances
+   a = fl(pa * dist), b = fl(pb * dist) *)
+Theorem global_lipschitz_position_at_ieee (path : list Pos) (M : R) (pa pb : F64) :
+  Forall (fun p => coord_le p 20) path -> segs_ok path -> (length path <= 2 ^ 50)%nat ->
+  poly_len (map R2 path) <= pw 40 -> coords_le M path -> 0 <= M ->
+  fin pa -> fin pb -> 0 <= B2R pa <= 1 -> 0 <= B2R pb <= 1 ->
+  let lens := natural path D.zero in
+  let L := Curve.dist lens in
+  let a := progress_to_dist lens pa in
+  let b := progress_to_dist lens pb in
+  let G := (1 + delta19) * Rabs (B2R b - B2R a) + INR (length path) * eta19 * B2R L in
+  exists qa qb,
+    position_at path lens pa = Done qa /\ position_at path lens pb = Done qb /\
+    Rabs (B2R (px qa) - B2R (px qb)) <= G + 2 * E19max M /\
+    Rabs (B2R (py qa) - B2R (py qb)) <= G + 2 * E19max M /\
+    edist (R2 qa) (R2 qb) <= G + 4 * E19max M.
+Proof.
+  intros Hc Hs Hn Ht40 HM HM0 Fpa Fpb Hpa Hpb lens L a b G.
+  destruct (dist_bounds path Hc Hs Hn Ht40) as (FL & ZL & UL). fold lens L in FL, ZL, UL.
+  assert (UL' : B2R L <= pw 1023) by (eapply Rle_trans; [exact UL|apply bpow_le; zl]).
+  destruct (progress_to_dist_range lens pa Fpa Hpa FL ZL UL') as (Fa & Ha).
+  destruct (progress_to_dist_range lens pb Fpb Hpb FL ZL UL') as (Fb & Hb).
+  exact (global_lipschitz_search_ieee path Hc Hs Hn Ht40 M HM HM0 a b Fa Fb Ha Hb).
+Qed.
